@@ -319,6 +319,8 @@ func C18() *sim.Check {
 				c.St.Add("yields", res.Steps)
 				c.St.Add("context_switches", res.Switches)
 				c.St.Add("lock_contentions", res.Contentions)
+				c.St.Add("fired_preemption_at_yield_point", res.Switches)
+				c.St.Add("fired_lock_contention", res.Contentions)
 				c.St.Add("probe_switch_with_another_task_inside_library", res.Overlaps)
 				c.St.Print(res.Trace)
 				if res.Switches > 0 && len(tasks) >= 2 {
@@ -326,6 +328,7 @@ func C18() *sim.Check {
 				}
 				if c.Index%max(perProc, 1) == 0 {
 					c.St.Inc("probe_cold_start_simulations")
+					c.St.Inc("fired_cold_start")
 				}
 				names := []string{}
 				for _, ops := range tasks {
@@ -383,7 +386,7 @@ func C18() *sim.Check {
 
 	// isolation over histories: probe0 ; (polluter ; probe)*
 	var probe0 string
-	iso := &sim.Batch{Name: "isolation", Quick: 6000, Thorough: 200_000, Isolated: true, PerProc: 60, Workers: 16, Env: raceEnv, ChildTimeout: 240 * time.Second, ClassifyAbort: classifyRace, MaxShrink: 150}
+	iso := &sim.Batch{Name: "isolation", Quick: 6000, Thorough: 120_000, Isolated: true, PerProc: 60, Workers: 16, Env: raceEnv, ChildTimeout: 240 * time.Second, ClassifyAbort: classifyRace, MaxShrink: 150}
 	iso.ChildInit = func() { probe0 = probeBattery() }
 	iso.Run = func(c *sim.RunCtx) *sim.Outcome {
 		t := c.T
@@ -449,11 +452,12 @@ func C18() *sim.Check {
 
 	ck := &sim.Check{
 		Prop: "C18", Harness: "h_isolate+h_conc", Level: "exploration",
-		Rule:     "concurrent / concurrent-cold: 2-6 caller goroutines become simulator tasks, each with 1-4 operations on objects it owns (hostile programs in own interpreters, ReadCMap, type1.Read, Font.Write, Metrics.Write+afm.Read, glyph-name look-ups, fresh interpreters, CIDInit users/abusers, font queries); tools/instrument puts a yield point at every function and loop entry of the library (~340 sites) and routes Lock/RLock/Once/go through the scheduler; only the task chosen by the tape runs, every context switch happens at a yield point, the hand-off uses plain norace variables so that the Go race detector sees only the library's own synchronisation. Oracles: no race report (halt_on_error, attributed to the run in progress), every operation's result digest equals that of the same operation run alone in a separate reference process, all tasks finish within the step budget. concurrent-cold uses one simulation per process so that first-use initialisation races with use. isolation: probe0 ; (polluter ; probe)* histories per process with a fixed probe battery on fresh objects after every polluter. distinct_nontrivial counts distinct interleaving fingerprints (hash of the (from-task, to-task, site) switch sequence) with >= 2 tasks and >= 1 context switch, plus distinct (history, step) isolation probes.",
-		Assume:   []string{"TSan keeps four accesses per shadow word and may miss a race; it never invents one", "the reference process runs polluters too; if isolation were broken there, results would still differ and be reported", "workers run with GOMAXPROCS=1: the interleaving is decided by the tape, not by the Go scheduler"},
-		RealStub: map[string]any{"real": []string{"all go-postscript packages, seam-instrumented copy of the current working tree, built with -race", "sync.Mutex (via TryLock), text/template, embed"}, "stub": []string{"the goroutine scheduler (seeded cooperative scheduler in simrt)", "caller goroutines (generated tasks)"}},
-		Batches:  []*sim.Batch{iso, conc("concurrent-cold", 160, 8_000, 1), conc("concurrent", 5000, 200_000, 50)},
-		Probes:   []string{"context_switches", "lock_contentions", "probe_switch_with_another_task_inside_library", "probe_cold_start_simulations", "sequential_reference_comparisons", "probes_after_polluter"},
+		Rule:        "concurrent / concurrent-cold: 2-6 caller goroutines become simulator tasks, each with 1-4 operations on objects it owns (hostile programs in own interpreters, ReadCMap, type1.Read, Font.Write, Metrics.Write+afm.Read, glyph-name look-ups, fresh interpreters, CIDInit users/abusers, font queries); tools/instrument puts a yield point at every function and loop entry of the library (~340 sites) and routes Lock/RLock/Once/go through the scheduler; only the task chosen by the tape runs, every context switch happens at a yield point, the hand-off uses plain norace variables so that the Go race detector sees only the library's own synchronisation. Oracles: no race report (halt_on_error, attributed to the run in progress), every operation's result digest equals that of the same operation run alone in a separate reference process, all tasks finish within the step budget. concurrent-cold uses one simulation per process so that first-use initialisation races with use. isolation: probe0 ; (polluter ; probe)* histories per process with a fixed probe battery on fresh objects after every polluter. distinct_nontrivial counts distinct interleaving fingerprints (hash of the (from-task, to-task, site) switch sequence) with >= 2 tasks and >= 1 context switch, plus distinct (history, step) isolation probes.",
+		Assume:      []string{"TSan keeps four accesses per shadow word and may miss a race; it never invents one", "the reference process runs polluters too; if isolation were broken there, results would still differ and be reported", "workers run with GOMAXPROCS=1: the interleaving is decided by the tape, not by the Go scheduler"},
+		RealStub:    map[string]any{"real": []string{"all go-postscript packages, seam-instrumented copy of the current working tree, built with -race", "sync.Mutex (via TryLock), text/template, embed"}, "stub": []string{"the goroutine scheduler (seeded cooperative scheduler in simrt)", "caller goroutines (generated tasks)"}},
+		Batches:     []*sim.Batch{iso, conc("concurrent-cold", 160, 5_000, 1), conc("concurrent", 5000, 150_000, 50)},
+		SimTimeUnit: "scheduler steps (library yield points passed by simulated tasks)", SimTimeCounters: []string{"yields"},
+		Probes: []string{"context_switches", "lock_contentions", "probe_switch_with_another_task_inside_library", "probe_cold_start_simulations", "sequential_reference_comparisons", "probes_after_polluter"},
 	}
 	return ck
 }
